@@ -723,6 +723,28 @@ def search_c03(rng, n, S=None, kinds=None):
                 key = "periodic-unequal-end-cells" if (not ok and per_uneq) else f"C03:solver-vs-reported:{kind}"
                 S.check(ok, key, "ghost unknowns computed by the solver differ from the boundary values reported afterwards", inp,
                         float(np.max(diff)) if diff.size else 0.0, 0.0)
+            # a second variable sharing the same BoundaryConditions object, BCs edited, the other variable solved first:
+            # the solver's boundary rows of the second variable must still be the current ones
+            if not any(sp["periodic"] for sp in spec):
+                bcs_ = make_bcs(mc, spec)
+                pa = pf.CellVariable(mc.m, vals.copy(), bcs_); pb = pf.CellVariable(mc.m, vals.copy() + 0.5, bcs_)
+                sd = getattr(bcs_, rng.choice(SIDES[1:2 * mc.dim] if RADIAL[kind] else SIDES[:2 * mc.dim]))
+                sd.a = 0.5; sd.b = 1.0; sd.c = rng.choice([1.5, -0.75, 2.25])
+                pf.solvePDE(pa, [pf.transientTerm(pa, dt, 1.0), -pf.diffusionTerm(D)])
+                rec2 = RecordingSolver()
+                pf.solvePDE(pb, [pf.transientTerm(pb, dt, 1.0), -pf.diffusionTerm(D)], externalsolver=rec2)
+                if np.all(np.isfinite(np.asarray(pb._value))):
+                    xs2 = rec2.calls[-1][2].reshape(mc.gshape()); rep2 = np.asarray(pb._value)
+                    mask2 = np.zeros(mc.gshape(), dtype=bool)
+                    for ax in range(mc.dim):
+                        sl = [slice(1, -1)] * mc.dim
+                        sl[ax] = 0; mask2[tuple(sl)] = True
+                        sl[ax] = -1; mask2[tuple(sl)] = True
+                    sc2 = max(1.0, float(np.max(np.abs(rep2))))
+                    d2 = np.abs(xs2 - rep2)[mask2]
+                    S.check(bool(np.all(d2 <= 1e-8 * sc2)), f"C03:shared-bc:solver-vs-reported:{kind}",
+                            "with a BoundaryConditions object shared by two variables, the ghost unknowns computed by the solver differ from the boundary values reported afterwards",
+                            {**inp, "scenario": "shared BC object, edited, other variable solved first"}, float(np.max(d2)) if d2.size else 0.0, 0.0)
             # scaling (a,b,c) by a non-zero factor changes nothing
             lam = rng.choice([2.0, -3.0, 0.5])
             spec2 = [dict(s, a=s["a"] * lam, b=s["b"] * lam, c=s["c"] * lam) for s in spec]
@@ -948,4 +970,31 @@ def search_c01(rng, n, S=None, kinds=None):
                     S.samples.append(inp)
         except Exception as ex:
             S.check(False, f"C01:{mode}:{kind}:exception", repr(ex), {"kind": kind, "mode": mode}, repr(ex) , "no exception")
+    # two species sharing one BoundaryConditions object: loading through a Dirichlet wall, then the wall is closed
+    # (defaultNoFlux) and both must conserve their integrals from then on
+    for t in range(max(2, n // 20)):
+        kind = rng.choice(["cart1", "cart2", "cyl2", "cart3"])
+        try:
+            mc = rand_mesh(rng, kind, nmax=3)
+            bc = BoundaryConditions(mc.m)
+            a = pf.CellVariable(mc.m, rand_vals(rng, mc.shape(), "pos"), bc)
+            b = pf.CellVariable(mc.m, rand_vals(rng, mc.shape(), "pos"), bc)
+            D = make_facevar(mc, [np.abs(x) + 0.25 for x in rand_face_arrays(rng, mc, "pos")])
+            bc.right.fixedValue(1.0)
+            for _ in range(2):
+                for v in (a, b):
+                    pf.solvePDE(v, [pf.transientTerm(v, 0.5, 1.0), -pf.diffusionTerm(D)])
+            bc.right.defaultNoFlux()
+            I0 = [float(v.domainIntegral()) for v in (a, b)]
+            for _ in range(3):
+                for v in (a, b):
+                    pf.solvePDE(v, [pf.transientTerm(v, 0.5, 1.0), -pf.diffusionTerm(D)])
+            I1 = [float(v.domainIntegral()) for v in (a, b)]
+            sc = max(abs(x) for x in I0 + I1) + 1e-300
+            S.check(all(abs(x - y) <= 1e-9 * sc for x, y in zip(I0, I1)), f"C01:shared-bc-closed:{kind}",
+                    "two variables sharing one BoundaryConditions object: after the wall is closed the domain integral of one of them still changes",
+                    case_of(mc, mode="shared-bc-closed"), I1, I0)
+            S.sig(kind, "shared-bc-closed")
+        except Exception as ex:
+            S.check(False, f"C01:shared-bc-closed:{kind}:exception", repr(ex), {"kind": kind}, repr(ex), "no exception")
     return S
